@@ -89,7 +89,7 @@ def shape_values(axis, level):
         return [[{'mods': [['10', 1]], 'targets': ['K']}], [{'mods': [['Oxidation', 1]], 'targets': ['M', 'S']}],
                 [{'mods': [['10', 1]], 'targets': ['N-Term']}], [{'mods': [['10', 1]], 'targets': ['C-Term']}]]
     if axis == 'isotope':
-        return [['13C'], ['15N'], ['13C', '15N']] if level <= 1 else [['13C']]
+        return [['13C'], ['15N'], ['13C', '15N'], ['D'], ['18O']] if level <= 1 else [['13C'], ['D']]
     if axis == 'charge':   # a charge written in the string must not leak into the ions (fragment charges are explicit)
         return [[2, None, None], [3, None, None]] if level <= 1 else [[2, None, None]]   # adduct lists: outside C04's quantifier
     if axis == 'avg':
